@@ -8,6 +8,12 @@ CLI_NOTE = ("Trusted: the device reference model (one line per (rule,key), own n
             "permanent/ignore_changes only outside %ordered blocks). Sampling, not proof. Junos-style flattening vendors not covered.")
 
 CLAIMED = {
+ "C09": dict(
+    engine="cli",
+    technique="deterministic simulation: seeded deploys through the real `annet patch` and `annet deploy` front ends; the command stream is observed at the DeployDriver seam and replayed on a virtual clock against a device conforming to the reference deploy rules",
+    level_text="Seeded exploration at the driver seam: for seeded world states the text `annet patch` prints, the cmd_lines shown at the confirmation prompt and the CommandList handed to DeployDriver.bulk_deploy by the real api.adeploy are compared command by command (order, depth, block exits, exactly once); the wrapper is compared with an independent vendor session table for do_commit/dont_commit; timeout and dialogs of every command with an independent evaluation of the synthetic deploy rulebook; the device takes just under the reference timeout and asks the reference questions, so a wrong carried timeout or dialog fails the deploy on the virtual clock.",
+    design_ref="DESIGN.md 5 (C09)",
+    level_note=CLI_NOTE + " Deploy rulebooks: sibling rules with disjoint languages, globally unique head words; rule selection semantics as the shipped rulebooks rely on it (unmatched ancestor levels are skipped)."),
  "C02": dict(
     engine="cli",
     technique="deterministic simulation with fault injection: seeded histories of the real `annet deploy` with ACL-owning generators against simulated devices holding unmanaged lines; safety invariants evaluated after every executed command (every possible cut point)",
